@@ -1230,7 +1230,10 @@ class Interp:
             if attr == "T" and is_arr2(v):
                 r = self.arr2_reader(v)
                 d = self.arr2_dims(v)
-                return LArr2(d[1], d[0], lambda i, j: r(j, i))
+                tv = LArr2(d[1], d[0], lambda i, j: r(j, i))
+                if isinstance(v, LArr2):
+                    tv.transpose_of = v  # numpy's .T is a VIEW: an in-place update of it changes the array it was taken from
+                return tv
             if isinstance(v, np.ndarray):
                 x = getattr(v, attr)
                 return ArrMethod(v, attr) if callable(x) else x
@@ -2388,6 +2391,19 @@ class Interp:
                 return
             if isinstance(cur, list) and isinstance(node.op, ast.Add):
                 cur.extend(self.iterable(rhs))
+                return
+            if isinstance(cur, LArr2):
+                # numpy updates a 2-D array in place: the same object (and every other name for it) gets the new contents; the
+                # shape of the target is kept
+                new = self.binop(node.op, cur, rhs, node)
+                dc, dn = self.arr2_dims(cur), (self.arr2_dims(new) if is_arr2(new) else None)
+                if dn is None or not all(concrete_int(a) is not None and concrete_int(a) == concrete_int(b) for a, b in zip(dc, dn)):
+                    raise Unsupported("in-place update of a 2-D array whose shape is not concrete or would change (line %s)" % node.lineno)
+                cur.get = self.arr2_reader(new)
+                base = getattr(cur, "transpose_of", None)
+                if base is not None:
+                    g = cur.get
+                    base.get = lambda i, j, g=g: g(j, i)
                 return
             env[t.id] = self.binop(node.op, cur, rhs, node)
             return
